@@ -374,6 +374,14 @@ def gen_units(repo):
     return m
 
 
+def gen_names(repo):
+    """T16: the line-name cache of DigitalWaveform"""
+    m = T.Module(f"{repo}/src/nitypes/waveform/_digital/_waveform.py", "Gen.Names")
+    m.extra_imports = ["NiVerif.Model.Names"]
+    m.translate_line_names("DigitalWaveform", {"LINE_NAMES": "NI_LineNames"})
+    return m
+
+
 MODULES = [
     # (output file, builder, dependencies by output name)
     ("TimeValueTuple", lambda repo, deps: gen_time_value_tuple(repo), []),
@@ -396,6 +404,7 @@ MODULES = [
     ("Vector", lambda repo, deps: gen_vector(repo), []),
     ("ExtProps", lambda repo, deps: gen_ext_props(repo), []),
     ("Units", lambda repo, deps: gen_units(repo), []),
+    ("Names", lambda repo, deps: gen_names(repo), []),
 ]
 
 
